@@ -386,14 +386,17 @@ pred_find_seq::result (value_seq &haystack, value_seq &needle) const
 {
   auto const &hay = *haystack.get_seq ();
   auto const &need = *needle.get_seq ();
+  // An empty needle is found in any haystack, including an empty one,
+  // where std::search has nothing but the end iterator to return.
   return pred_result
-    (std::search (hay.begin (), hay.end (),
-		  need.begin (), need.end (),
-		  [] (std::unique_ptr <value> const &a,
-		      std::unique_ptr <value> const &b)
-		  {
-		    return a->cmp (*b) == cmp_result::equal;
-		  }) != haystack.get_seq ()->end ());
+    (need.empty ()
+     || std::search (hay.begin (), hay.end (),
+		     need.begin (), need.end (),
+		     [] (std::unique_ptr <value> const &a,
+			 std::unique_ptr <value> const &b)
+		     {
+		       return a->cmp (*b) == cmp_result::equal;
+		     }) != haystack.get_seq ()->end ());
 }
 
 std::string
